@@ -125,8 +125,10 @@ class C17Checker:
         elif isinstance(init, UniformInitializer):
             w.tr.count("c17:uniform-checks")
             parts = [a.real, a.imag] if np.iscomplexobj(a) else [a]
+            # in single precision the bounds themselves are rounded
+            slack = 1e-6 * (abs(init.a) + abs(init.b) + 1.0) if a.dtype in (np.float32, np.complex64) else 0.0
             for part in parts:
-                if part.min() < init.a or part.max() > init.b:
+                if part.min() < init.a - slack or part.max() > init.b + slack:
                     raise Violation(
                         "N6",
                         f"{cname}: {_describe(sp)} holds values in [{part.min():.4g}, {part.max():.4g}] "
@@ -146,7 +148,7 @@ class C17Checker:
             if a.min() < 0.0:
                 raise Violation("N7", f"{cname}: {_describe(sp)} has negative entries {where}")
             s = a.sum(axis=ax)
-            if np.abs(s - 1.0).max() > 1e-9:
+            if np.abs(s - 1.0).max() > (1e-5 if a.dtype == np.float32 else 1e-9):
                 raise Violation(
                     "N7",
                     f"{cname}: {_describe(sp)} does not sum to one along its declared axis {init.axis} "
